@@ -48,13 +48,15 @@ def main(tier, names=None):
     # behaviour-preserving refactorings written by independent sub-agents (refactors/<id>/patch.diff) on which every
     # check is known to be silent: they must stay silent
     exp = os.path.join(VERIF, "refactors", "EXPECT_SILENT.txt")
-    if os.path.exists(exp):
+    if os.path.exists(exp) and not os.environ.get("SC_SELFTEST_CORPUS_ONLY"):      # (the refactorings take hours with a cold fact cache)
         for rid in open(exp).read().split():
             pp = os.path.join(VERIF, "refactors", rid, "patch.diff")
             if os.path.exists(pp):
                 corpus.append({"name": "refactor-" + rid, "kind": "silent", "edits": [{"patch": pp}], "expect": {}})
     if names:
         corpus = [c for c in corpus if c["name"] in names]
+    if os.environ.get("SC_SELFTEST_KIND"):
+        corpus = [c for c in corpus if c["kind"] == os.environ["SC_SELFTEST_KIND"]]
     t0 = time.time()
     with ThreadPoolExecutor(max_workers=int(os.environ.get("SC_SELFTEST_JOBS", "5"))) as ex:
         res = list(ex.map(job, corpus))
